@@ -136,6 +136,7 @@ type sm2Obj struct {
 	pub     *ecdsa.PublicKey // separate public key object (shared too)
 	peer    *sm2.PrivateKey
 	ct      []byte
+	ctBig   []byte // 300..470-byte message: the KDF runs its 8-lane batches plus a tail
 	ctASN1  []byte
 	hash    []byte
 	sig     []byte
@@ -159,6 +160,7 @@ func newSM2Obj(seed uint64) any {
 	msg := gen.Fill(gen.Mix(seed, 3), 40)
 	o.ct = shared(must(sm2.Encrypt(gen.NewDetReader(seed+9), &cp.PublicKey, msg, nil)))
 	o.ctASN1 = shared(must(sm2.EncryptASN1(gen.NewDetReader(seed+10), &cp.PublicKey, msg)))
+	o.ctBig = shared(must(sm2.Encrypt(gen.NewDetReader(seed+12), &cp.PublicKey, gen.Fill(gen.Mix(seed, 5), 300+int(seed%171)), nil)))
 	o.hash = shared(gen.Fill(gen.Mix(seed, 4), 32))
 	o.sig = shared(must(sm2.SignASN1(gen.NewDetReader(seed+11), cp, o.hash, nil)))
 	o.uidA = shared([]byte("alice"))
@@ -208,6 +210,30 @@ var kindSM2 = kind{name: "sm2-key", setup: newSM2Obj, ops: []op{
 			return "", err
 		}
 		return hx(pt) + "/" + hx(pt2), nil
+	}},
+	{"decrypt-refused-then-valid", false, func(obj any, g, i int, seed uint64) (string, error) {
+		// failure paths release resources too (pooled hash states, scratch buffers):
+		// a refused ciphertext followed by valid ones, from many goroutines at once
+		o := obj.(*sm2Obj)
+		bad := append([]byte{}, o.ctBig...)
+		bad[len(bad)-1-(g+i)%40] ^= 0x01
+		if _, err := sm2.Decrypt(o.priv, bad); err == nil {
+			return "", fmt.Errorf("tampered ciphertext accepted")
+		}
+		pt, err := sm2.Decrypt(o.priv, o.ctBig)
+		if err != nil {
+			return "", fmt.Errorf("valid ciphertext refused after a refused one: %v", err)
+		}
+		msg := gen.Fill(gen.Mix(seed, 104, uint64(g), uint64(i)), 225+(g*37+i*101)%300)
+		ct, err := sm2.Encrypt(rnd(seed, g, i), o.pub, msg, nil)
+		if err != nil {
+			return "", err
+		}
+		pt2, err := sm2.Decrypt(o.priv, ct)
+		if err != nil || !bytes.Equal(pt2, msg) {
+			return "", fmt.Errorf("long ciphertext made concurrently does not decrypt: %v", err)
+		}
+		return hx(pt[:16]) + "/" + hx(ct[len(ct)-16:]), nil
 	}},
 	{"verify", false, func(obj any, g, i int, seed uint64) (string, error) {
 		o := obj.(*sm2Obj)
@@ -514,6 +540,24 @@ var kindSM9Enc = kind{name: "sm9-encrypt-key", setup: func(seed uint64) any {
 		pt, err := sm9.Decrypt(o.user, o.uid, o.ct, nil)
 		return hx(pt), err
 	}},
+	{"decrypt-refused-then-valid", true, func(obj any, g, i int, seed uint64) (string, error) {
+		o := obj.(*sm9EncObj)
+		bad := append([]byte{}, o.ct...)
+		bad[len(bad)-1-(g+i)%30] ^= 0x01
+		if _, err := sm9.Decrypt(o.user, o.uid, bad, nil); err == nil {
+			return "", fmt.Errorf("tampered SM9 ciphertext accepted")
+		}
+		msg := gen.Fill(gen.Mix(seed, 301, uint64(g), uint64(i)), 200+(g*41+i*97)%300) // XOR mode: KDF output = message length + 32
+		ct, err := sm9.Encrypt(rnd(seed, g, i), o.pub, o.uid, 3, msg, nil)
+		if err != nil {
+			return "", err
+		}
+		pt, err := sm9.Decrypt(o.user, o.uid, ct, nil)
+		if err != nil || !bytes.Equal(pt, msg) {
+			return "", fmt.Errorf("long SM9 ciphertext made concurrently does not decrypt after a refused one: %v", err)
+		}
+		return hx(ct[len(ct)-16:]), nil
+	}},
 	{"key-exchange", true, func(obj any, g, i int, seed uint64) (string, error) {
 		o := obj.(*sm9EncObj)
 		// hid 2 here while wrap/encrypt use hid 3 on the same shared identities
@@ -662,6 +706,23 @@ var kindSM4 = kind{name: "sm4-block-aead", setup: func(seed uint64) any {
 		}
 		return res, nil
 	}},
+	{"open-refused-then-valid", false, func(obj any, g, i int, seed uint64) (string, error) {
+		o := obj.(*sm4Obj)
+		res := ""
+		for k, a := range []cipher.AEAD{o.gcm, o.gcm13, o.ccm} {
+			bad := append([]byte{}, o.sealed[k]...)
+			bad[(g*7+i)%len(bad)] ^= 0x80
+			if _, err := a.Open(nil, o.nonce, bad, o.aad); err == nil {
+				return "", fmt.Errorf("AEAD %T opened a tampered message", a)
+			}
+			pt, err := a.Open(nil, o.nonce, o.sealed[k], o.aad)
+			if err != nil {
+				return "", fmt.Errorf("AEAD %T refused a valid message after a tampered one: %v", a, err)
+			}
+			res += hx(pt[:4])
+		}
+		return res, nil
+	}},
 	{"construct-aead", false, func(obj any, g, i int, seed uint64) (string, error) {
 		o := obj.(*sm4Obj)
 		a := must(cipher.NewGCM(o.block))
@@ -681,7 +742,8 @@ var kindHashCtor = kind{name: "hash-constructors", setup: func(seed uint64) any 
 		if !bytes.Equal(a, b[:]) {
 			return "", fmt.Errorf("sm3.New and sm3.Sum disagree under concurrency")
 		}
-		k := sm3.Kdf(in, 100)
+		// output lengths on both sides of the multi-lane KDF's batch sizes (4 and 8 blocks, with and without a tail)
+		k := sm3.Kdf(in, []int{100, 225, 300, 470, 1000, 32, 256}[(g+i)%7])
 		return hx(a) + hx(k), nil
 	}},
 	{"pkcs-registry", false, func(obj any, g, i int, seed uint64) (string, error) {
